@@ -1047,6 +1047,68 @@ enum Outcome {
     Panic(String),
 }
 
+/// Canonical line of `map_string_to_cql_type` (through the hook, which returns the `Debug` text of the parsed type or
+/// of the error): `ty <Debug text, UDT names in hex>` / `err <1-based position in characters> <reason>`.
+fn schema_type_line(text: &str) -> String {
+    fn unescape(s: &str) -> Vec<u8> {
+        // Debug-escaped string -> its bytes (escapes that can occur: \u{..}, \", \\, \n, \r, \t, \0, \')
+        let mut out = String::new();
+        let mut it = s.chars().peekable();
+        while let Some(c) = it.next() {
+            if c != '\\' {
+                out.push(c);
+                continue;
+            }
+            match it.next() {
+                Some('u') => {
+                    let mut h = String::new();
+                    it.next(); // {
+                    for d in it.by_ref() {
+                        if d == '}' {
+                            break;
+                        }
+                        h.push(d);
+                    }
+                    out.push(u32::from_str_radix(&h, 16).ok().and_then(char::from_u32).unwrap_or('?'));
+                }
+                Some('n') => out.push('\n'),
+                Some('r') => out.push('\r'),
+                Some('t') => out.push('\t'),
+                Some('0') => out.push('\0'),
+                Some(o) => out.push(o),
+                None => {}
+            }
+        }
+        out.into_bytes()
+    }
+    match scylla::verif_hooks::fetching::parse_cql_type_string(text) {
+        Ok(dbg) => {
+            // UDT names are the only quoted strings; their characters are alphanumeric or one of `. _ $`, so a `"`
+            // always delimits
+            let mut out = String::from("ty ");
+            let mut parts = dbg.split('"');
+            let mut inside = false;
+            for part in parts.by_ref() {
+                if inside {
+                    out.push_str(&hex(&unescape(part)));
+                } else {
+                    out.push_str(&part.replace(' ', ""));
+                }
+                inside = !inside;
+            }
+            out
+        }
+        Err(e) => {
+            // `InvalidCqlType { typ: "…", position: N, reason: "…" }`
+            let (Some(i), Some(j)) = (e.rfind(", position: "), e.rfind(", reason: \"")) else { return format!("err ? {}", e.len()) };
+            let pos = &e[i + 12..j];
+            let tail = e[j + 11..].trim_end_matches(" }");
+            let reason = String::from_utf8_lossy(&unescape(tail.strip_suffix('"').unwrap_or(tail))).into_owned();
+            format!("err {} {}", pos, reason.replace(' ', "_"))
+        }
+    }
+}
+
 /// Runs `f` on a helper thread with a 2 MiB stack, the allocation counter on, and a watchdog.
 fn guarded(f: impl FnOnce() -> (String, Vec<String>) + Send + 'static) -> Option<Outcome> {
     let (tx, rx) = std::sync::mpsc::channel();
@@ -1126,6 +1188,10 @@ pub fn run(case: &str, ctx: &mut Ctx) -> String {
             Some(bs) => format!("{} {}", w[1..10].join(" "), crate::c08gen::uni_table(&bs)),
             None => "bad-case".into(),
         },
+        Some("a") if w.len() == 3 && w[1] == "t" => match if w[2] == "-" { Some(vec![]) } else { unhex(w[2]) } {
+            Some(bs) => format!("t {} {}", w[2], crate::c08gen::uni_table(&bs)),
+            None => "bad-case".into(),
+        },
         // `h <frame hex>`: `read_response_frame` alone, WITHOUT the harness's oversize guard (allocation oracle on)
         Some("h") if w.len() == 2 => {
             let Some(bs) = unhex(w[1]) else { return "bad-case".into() };
@@ -1143,6 +1209,20 @@ pub fn run(case: &str, ctx: &mut Ctx) -> String {
                 let maxreq = c08alloc::peek().1;
                 let cap = if maxreq >= 65536 && maxreq > before { maxreq.to_string() } else { "small".to_owned() };
                 (format!("{} cap={}", r, cap), vec![])
+            });
+            finish(o, n, "-", ctx)
+        }
+        // `t <utf8 hex> [u=table]`: the type strings of the schema tables (`map_string_to_cql_type`, fetching.rs), on the
+        // 2 MiB helper thread: a stack overflow kills the process and the runner names this case
+        Some("t") if w.len() == 2 || w.len() == 3 => {
+            let Some(bs) = (if w[1] == "-" { Some(vec![]) } else { unhex(w[1]) }) else { return "bad-case".into() };
+            let Ok(text) = String::from_utf8(bs) else { return "skip not-utf8".into() };
+            let n = text.len();
+            let o = guarded(move || {
+                // long renderings are compared by length + hash
+                let l = schema_type_line(&text);
+                let l = if l.len() > 1000 { format!("{}… len={} h={:016x}", l.chars().take(200).collect::<String>(), l.len(), fnv(&l)) } else { l };
+                (l, vec![])
             });
             finish(o, n, "-", ctx)
         }
